@@ -147,6 +147,19 @@ def rule_D5(tree: Tree) -> RuleResult:
                 if t is not None and lab == "T" and src(t) == "data is None":
                     skip_ok = True
     r.ob(skip_ok, Finding("D5", "quic.quic_output_builder:QUICOutputbuilder.build:skip-rule", "a frame may be skipped only under `data is None`", qb.module.line(qb.node)))
+    # QuicSession.build_output: hands the whole output buffer to the builder whatever the switch says; the switch is only passed on to build()
+    bo = tree.func("quic.quic_session", "QuicSession.build_output")
+    bcfg = cfg_of(bo.node)
+    r.instances += 1
+    mp = bo.params[1] if len(bo.params) > 1 else "metadata"
+    dep = [src(n.ast, 60) for n in bcfg.stmt_nodes() if n.ast is not None and _switch_conditions(bcfg, n.id, {mp})]
+    ctor = [c for c in body_walk(bo.node) if isinstance(c, ast.Call) and dotted(c.func) == "QUICOutputbuilder"]
+    uses = [n for n in body_walk(bo.node) if isinstance(n, ast.Name) and n.id == mp and isinstance(n.ctx, ast.Load)]
+    okb = not dep and len(ctor) == 1 and ctor[0].args and dotted(ctor[0].args[0]) == "self.output_buffer" and len(uses) == 1
+    r.ob(okb, Finding("D5", "quic.quic_session:QuicSession.build_output:meta-independent",
+                      f"build_output must give the builder the whole output buffer (`self.output_buffer`) with and without -a and only pass the switch on to build(); found "
+                      f"{'statements under the switch ' + str(dep[:2]) if dep else ''} builder input `{src(ctor[0].args[0], 40) if ctor and ctor[0].args else None}`, {len(uses)} reads of the switch",
+                      bo.module.line(bo.node)))
     # run(): the switch is only passed on; nothing in run() is control-dependent on it and nothing re-orders the result under it
     run = tree.func("main", "run")
     rcfg = cfg_of(run.node)
